@@ -123,6 +123,9 @@ func (c *Check) SetExtra(k string, v interface{}) {
 }
 
 func (c *Check) Violate(v Violation) {
+	if os.Getenv("VERIF_DEBUG") != "" {
+		fmt.Fprintf(os.Stderr, "[debug] violation %s/%s: %s\n", v.Class, v.Shape, trunc(v.Detail, 300))
+	}
 	c.mu.Lock()
 	if len(c.viols) < 2000 {
 		c.viols = append(c.viols, v)
